@@ -1069,6 +1069,9 @@ class XsdElement(XsdComponent, ParticleMixin,
                     if err.elem is not None:
                         raise
                     errors.append(err)
+                else:
+                    if not self.is_fixed_text(elem.text):
+                        errors.append(_("must have the fixed value %r") % self.fixed)
 
             elif self.fixed is not None:
                 elem.text = self.fixed
@@ -1088,6 +1091,9 @@ class XsdElement(XsdComponent, ParticleMixin,
                     if err.elem is not None:
                         raise
                     errors.append(err)
+                else:
+                    if not self.is_fixed_text(elem.text):
+                        errors.append(_("must have the fixed value %r") % self.fixed)
 
             elif self.fixed is not None:
                 elem.text = self.fixed
@@ -1122,6 +1128,18 @@ class XsdElement(XsdComponent, ParticleMixin,
                         any(name == e.qualified_name for e in self.iter_substitutes()))
 
         return name == self.name or name in self.substitutes
+
+    def is_fixed_text(self, text: Optional[str]) -> bool:
+        """
+        Returns `True` if the element has no fixed value or if the encoded
+        text is empty or represents the fixed value, `False` otherwise.
+        """
+        if self.fixed is None or not text or not isinstance(text, str) or text == self.fixed:
+            return True
+        try:
+            return strictly_equal(self.type.text_decode(text), self.type.text_decode(self.fixed))
+        except (ValueError, TypeError):
+            return False
 
     def match(self, name: Optional[str], default_namespace: Optional[str] = None,
               **kwargs: Any) -> Optional['XsdElement']:
